@@ -87,7 +87,7 @@ SLOW = {13, 16, 20}  # multi-segment / descendant templates with a slice: thorou
 
 def obligations(tier: str):
     obls = []
-    t = 300 if tier == "quick" else 3000
+    t = 300 if tier == "quick" else 1200
     for ti, (tpl, need) in enumerate(TEMPLATES):
         if tier == "quick" and ti in SLOW:
             continue
